@@ -81,12 +81,14 @@ pub fn blocks(thorough: bool) -> Vec<Block> {
         b.push(Block::new(Universe::new("U_adv(A_gcm)", A_GCM, 3, 1, false), k3.clone(), "Lambda<=3 (no u,c)"));
         b.push(Block::new(Universe::new("U_adv(A_gcm)", A_GCM, 2, 2, false), k2.clone(), "Lambda<=2 (no u,c)"));
         b.push(Block::new(Universe::new("U_ab3{a,b}", &["a", "b"], 3, 0, false), k2.clone(), "Lambda<=2 (no u,c)"));
-        b.push(Block::new(Universe::new("U_abc2{a,b,c}", &["a", "b", "c"], 2, 0, true), full.clone(), "Lambda_full (no u,c)"));
+        b.push(Block::new(Universe::new("U_abc2{a,b,c}", &["a", "b", "c"], 2, 2, true), full.clone(), "Lambda_full (no u,c)"));
+        b.push(Block::new(Universe::new("U_abc2{a,b,c}", &["a", "b", "c"], 2, 0, true), k3.clone(), "Lambda<=3 (no u,c)"));
         for (n, a) in [("A_meta", A_META), ("A_ws", A_WS), ("A_gc", A_GC), ("A_case", A_CASE), ("A_cls", A_CLS), ("A_esc", A_ESC), ("A_sgr", A_SGR)] {
-            b.push(Block::new(Universe::new(&format!("U_adv({n})"), a, 2, 2, true), k3.clone(), "Lambda<=3 (no u,c)"));
+            b.push(Block::new(Universe::new(&format!("U_adv({n})"), a, 2, 2, true), k2.clone(), "Lambda<=2 (no u,c)"));
+            b.push(Block::new(Universe::new(&format!("U_adv({n})"), a, 1, 3, true), k3.clone(), "Lambda<=3 (no u,c)"));
         }
         b.push(Block::new(Universe::new("U_adv(A_gc)", A_GC, 3, 1, false), k3.clone(), "Lambda<=3 (no u,c)"));
-        b.push(Block::new(Universe::new("U_adv(A_gc)", A_GC, 2, 3, true), k1.clone(), "Lambda<=1 (no u,c)"));
+        b.push(Block::new(Universe::new("U_adv(A_gc)", A_GC, 2, 3, true), vec![Cfg::new(0)], "{}"));
     }
     b
 }
